@@ -18,10 +18,14 @@ struct Lsp {
     stdin: ChildStdin,
     rx: Receiver<J>,
     next_id: u64,
+    /// number of token types in the legend the server advertised in its initialize response
+    legend_len: u64,
 }
 
 impl Lsp {
-    fn start(bin: &str) -> Result<Lsp, String> {
+    /// `flavor` 0: a client that declares no capabilities; 1: a client that lists the token
+    /// types it knows (six of the standard ones).
+    fn start(bin: &str, flavor: u8) -> Result<Lsp, String> {
         let mut child = Command::new(bin)
             .env("RUST_BACKTRACE", "0")
             .stdin(Stdio::piped())
@@ -61,10 +65,20 @@ impl Lsp {
                 }
             }
         });
-        let mut l = Lsp { child, stdin, rx, next_id: 1 };
-        let id = l.request("initialize", json!({"processId": null, "rootUri": null, "capabilities": {}}))?;
-        if l.wait(|m| m["id"] == json!(id), 10000).is_none() {
-            return Err("no response to initialize".into());
+        let mut l = Lsp { child, stdin, rx, next_id: 1, legend_len: 8 };
+        let caps = if flavor == 0 {
+            json!({})
+        } else {
+            json!({"textDocument": {"semanticTokens": {"requests": {"full": true}, "tokenTypes": ["variable", "string", "number", "operator", "comment", "keyword"], "tokenModifiers": [], "formats": ["relative"]}}})
+        };
+        let id = l.request("initialize", json!({"processId": null, "rootUri": null, "capabilities": caps}))?;
+        match l.wait(|m| m["id"] == json!(id), 10000) {
+            None => return Err("no response to initialize".into()),
+            Some(r) => {
+                if let Some(t) = r["result"]["capabilities"]["semanticTokensProvider"]["legend"]["tokenTypes"].as_array() {
+                    l.legend_len = t.len() as u64;
+                }
+            }
         }
         l.notify("initialized", json!({}))?;
         Ok(l)
@@ -208,7 +222,7 @@ fn check_diagnostics(text: &str, msg: &J) -> Option<(String, String)> {
     }
 }
 
-fn check_tokens(text: &str, msg: &J) -> Option<(String, String)> {
+fn check_tokens(text: &str, msg: &J, legend_len: u64) -> Option<(String, String)> {
     let lines: Vec<&str> = text.split('\n').collect();
     if !msg["error"].is_null() {
         return Some(("semantic tokens request failed".into(), msg.to_string()));
@@ -235,8 +249,8 @@ fn check_tokens(text: &str, msg: &J) -> Option<(String, String)> {
         let Some(src) = lines.get(line as usize) else {
             return Some(("semantic token on a line outside the document".into(), format!("line {}", line)));
         };
-        if v[3] >= 8 {
-            return Some(("semantic token type outside the legend".into(), format!("{:?}", v)));
+        if v[3] >= legend_len {
+            return Some(("semantic token type outside the advertised legend".into(), format!("{:?} with a legend of {} types", v, legend_len)));
         }
         if len == 0 || start + len > utf16_len(src) {
             return Some(("semantic token outside its line (UTF-16 units)".into(), format!("token at {}:{} length {} on line {:?} of {} units", line, start, len, src, utf16_len(src))));
@@ -305,15 +319,20 @@ enum Msg {
     /// one didChange notification carrying several full-text changes: the last one counts
     ChangeMulti(Vec<String>),
     Tokens,
+    /// didOpen of another document whose URI differs from this history's only in letter case
+    OpenOther(String),
+    /// tokens of this history's own document, after the other one was opened
+    TokensOwn,
 }
 
 /// Runs one history on a (possibly fresh) server; returns problems and message count.
-fn run_history(lsp: &mut Option<Lsp>, bin: &str, uri: &str, hist: &[Msg]) -> (u64, Option<(String, String, bool)>) {
+fn run_history(lsp: &mut Option<Lsp>, bin: &str, uri: &str, hist: &[Msg], flavor: u8) -> (u64, Option<(String, String, bool)>) {
+    let mut own = String::new();
     let mut sent = 0u64;
     let mut latest = String::new();
     for m in hist {
         if lsp.is_none() {
-            match Lsp::start(bin) {
+            match Lsp::start(bin, flavor) {
                 Ok(l) => *lsp = Some(l),
                 Err(e) => machinery(&e),
             }
@@ -321,6 +340,23 @@ fn run_history(lsp: &mut Option<Lsp>, bin: &str, uri: &str, hist: &[Msg]) -> (u6
         let l = lsp.as_mut().unwrap();
         sent += 1;
         let res: Result<Option<(String, String)>, String> = (|| match m {
+            Msg::OpenOther(t) => {
+                own = latest.clone();
+                let other = uri.to_uppercase().replace("FILE:", "file:");
+                l.notify("textDocument/didOpen", json!({"textDocument":{"uri":other,"languageId":"abasic","version":1,"text":t}}))?;
+                match l.wait(|x| x["method"] == "textDocument/publishDiagnostics" && x["params"]["uri"] == other, 8000) {
+                    Some(d) => Ok(check_diagnostics(t, &d)),
+                    None => Err("no diagnostics after didOpen of the second document".into()),
+                }
+            }
+            Msg::TokensOwn => {
+                let id = l.request("textDocument/semanticTokens/full", json!({"textDocument":{"uri":uri}}))?;
+                let ll = l.legend_len;
+                match l.wait(|x| x["id"] == json!(id), 8000) {
+                    Some(r) => Ok(check_tokens(&own, &r, ll).map(|(s, d)| (format!("after another document was opened: {}", s), d))),
+                    None => Err("no response to semanticTokens/full".into()),
+                }
+            }
             Msg::Open(t) => {
                 latest = t.clone();
                 l.notify("textDocument/didOpen", json!({"textDocument":{"uri":uri,"languageId":"abasic","version":1,"text":t}}))?;
@@ -348,8 +384,9 @@ fn run_history(lsp: &mut Option<Lsp>, bin: &str, uri: &str, hist: &[Msg]) -> (u6
             }
             Msg::Tokens => {
                 let id = l.request("textDocument/semanticTokens/full", json!({"textDocument":{"uri":uri}}))?;
+                let ll = l.legend_len;
                 match l.wait(|x| x["id"] == json!(id), 8000) {
-                    Some(r) => Ok(check_tokens(&latest, &r)),
+                    Some(r) => Ok(check_tokens(&latest, &r, ll)),
                     None => Err("no response to semanticTokens/full".into()),
                 }
             }
@@ -393,6 +430,12 @@ pub fn run(thorough: bool) -> Report {
             hists.push(vec![Msg::Open(a.clone()), Msg::Tokens, Msg::Open(b.clone()), Msg::Tokens]);
         }
     }
+    // a second document whose URI differs only in letter case
+    for a in core.iter().step_by(3) {
+        for b in core.iter().skip(1).step_by(3) {
+            hists.push(vec![Msg::Open(a.clone()), Msg::Tokens, Msg::OpenOther(b.clone()), Msg::TokensOwn]);
+        }
+    }
     // one change notification with two or three full texts
     {
         let c8: Vec<&String> = core.iter().step_by(4).take(8).collect();
@@ -431,7 +474,7 @@ pub fn run(thorough: bool) -> Report {
             let mut exits = vec![];
             for (hi, h) in chunk.iter().enumerate() {
                 let uri = format!("file:///c{}h{}.bas", ci, hi);
-                let (n, p) = run_history(&mut lsp, &bin, &uri, h);
+                let (n, p) = run_history(&mut lsp, &bin, &uri, h, (ci % 2) as u8);
                 sent += n;
                 if let Some((sig, detail, crashed)) = p {
                     if crashed {
@@ -461,7 +504,7 @@ pub fn run(thorough: bool) -> Report {
         for (sig, detail, hi) in v {
             let e = by_sig.entry(sig).or_insert((0, hi, detail.clone()));
             e.0 += 1;
-            let size = |i: usize| hists[i].iter().map(|m| match m { Msg::Open(t) | Msg::Change(t) => t.len(), Msg::ChangeMulti(ts) => ts.iter().map(|t| t.len()).sum(), _ => 0 }).sum::<usize>();
+            let size = |i: usize| hists[i].iter().map(|m| match m { Msg::Open(t) | Msg::Change(t) | Msg::OpenOther(t) => t.len(), Msg::ChangeMulti(ts) => ts.iter().map(|t| t.len()).sum(), _ => 0 }).sum::<usize>();
             if size(hi) < size(e.1) {
                 e.1 = hi;
                 e.2 = detail;
@@ -481,6 +524,8 @@ pub fn run(thorough: bool) -> Report {
                 Msg::Change(t) => json!({"didChange": t}),
                 Msg::ChangeMulti(ts) => json!({"didChangeMulti": ts}),
                 Msg::Tokens => json!("semanticTokens/full"),
+                Msg::OpenOther(t) => json!({"didOpen (same URI in upper case)": t}),
+                Msg::TokensOwn => json!("semanticTokens/full (first document)"),
             })
             .collect();
         rep.violations.push(Violation { signature: sig, detail: format!("{} (smallest of {} failing histories)", detail, cnt), case: json!({"kind":"lsp","history":h}) });
